@@ -3,7 +3,7 @@
 
 usage: confirm_mutant.py <ID> <k> <pkg> <tests-dir-relative-to-repo-root>
 
-Reads /tmp/mut/<ID>/mutant<k>/{patch.diff,demo.rs,meta.json}. In a scratch
+Reads $MUT_BASE/<ID>/mutant<k>/{patch.diff,demo.rs,meta.json} (MUT_BASE defaults to /tmp/mut). In a scratch
 worktree (/tmp/confirm, re-used between calls for incremental builds; remove it
 at the end of the session) it checks:
   1. the patch applies to /repo's HEAD and the workspace builds,
@@ -16,7 +16,8 @@ by what was run here.
 import json, os, re, shutil, subprocess, sys
 
 ID, K, PKG, TESTS = sys.argv[1], sys.argv[2], sys.argv[3], sys.argv[4]
-SRC = f"/tmp/mut/{ID}/mutant{K}"
+BASE = os.environ.get("MUT_BASE", "/tmp/mut")
+SRC = f"{BASE}/{ID}/mutant{K}"
 WT = "/tmp/confirm"
 env = dict(os.environ, CARGO_NET_OFFLINE="true")
 
@@ -96,5 +97,5 @@ if good:
     print("KEPT", dst)
 else:
     print("REJECTED", ID, K)
-    json.dump(log, open(f"/tmp/mut/{ID}/mutant{K}/confirm_log.json", "w"), indent=1)
+    json.dump(log, open(f"{SRC}/confirm_log.json", "w"), indent=1)
 sys.exit(0 if good else 1)
